@@ -79,12 +79,12 @@ func cmdVerify(args []string) {
 		rel := strings.TrimPrefix(pkg.Pkg.Path(), "github.com/consensys/gnark-crypto/")
 		for _, c := range cs {
 			if c.Tags != "any" {
-				isPure := strings.Contains(*tags, "purego")
+				isPure := strings.Contains(*tags, "purego") || strings.Contains(*tags, "portable")
 				if c.Tags == "purego" && !isPure || c.Tags == "default" && isPure {
 					continue
 				}
 			}
-			v.contracts[rel+"."+c.Func] = c
+			v.contracts[contractKey(rel, c)] = c
 		}
 	} else if err := v.LoadContracts(*croot, pkg.Pkg.Path()); err != nil {
 		fmt.Fprintln(os.Stderr, err)
